@@ -83,6 +83,7 @@ case $rc in
   3) exit 3 ;;
   *)
     # the child died: a race report (exit 66), a panic or fatal error in the code under test, or os.Exit(1) without a line
+    if grep -q '^panic: test timed out' "$LOG"; then echo "INCONCLUSIVE property=$ID go test timeout (log: $LOG)"; exit 3; fi
     if grep -q 'WARNING: DATA RACE' "$LOG"; then kind=data-race; elif grep -qE '^(panic:|fatal error:)' "$LOG"; then kind=crash; else kind="exit-$rc"; fi
     W="$ROOT/artifacts/$ID/$MODE-seed$VERIF_SEED-$kind.log"; cp "$LOG" "$W"
     echo "VIOLATION property=$ID replay=$W"
